@@ -252,6 +252,19 @@ func runRemote(t *testing.T, r *rep.Reporter, c *rep.Case, idx int) {
 	}
 	defer tgt.Close()
 
+	// quarantine raised between RCPT and DATA: a dimension of its own (separate
+	// PRNG stream), see quarantine_test.go
+	qp := genQuar(r.Seed(), idx, nTx)
+	var src starter = tgt
+	if qp.ViaPipeline {
+		pl, cleanup, err := behindPipeline(tgt, qp, &cur)
+		if err != nil {
+			t.Fatalf("pipeline in front of target.remote rejected: %v", err)
+		}
+		defer cleanup()
+		src = pl
+	}
+
 	ctx := context.Background()
 	earlier := map[string]bool{}
 	var shape []string
@@ -261,13 +274,16 @@ func runRemote(t *testing.T, r *rep.Reporter, c *rep.Case, idx int) {
 	for tx := 1; tx <= nTx; tx++ {
 		cur.Store(int32(tx))
 		rcpts := genTxnRcpts(p, pool)
+		if qp.ViaPipeline {
+			rcpts = dedupe(rcpts)
+		}
 		openFail := p.Chance(1, 25)
 		callBodyAnyway := p.Bool()
 		abortAtEnd := p.Chance(1, 10)
 		meta := &module.MsgMetadata{ID: fmt.Sprintf("c09r%dt%d", idx, tx)}
 		meta.SMTPOpts.UTF8 = anyNonASCII(rcpts) || p.Chance(1, 3)
 
-		d, err := tgt.Start(ctx, meta, "sender@src.example")
+		d, err := src.Start(ctx, meta, "sender@src.example")
 		if err != nil {
 			t.Fatalf("remote Start: %v", err)
 		}
@@ -286,6 +302,12 @@ func runRemote(t *testing.T, r *rep.Reporter, c *rep.Case, idx int) {
 		}
 		r.Count("remote_rcpt_supplied", int64(len(lt.Supplied)))
 		r.Count("remote_rcpt_accepted", int64(len(lt.Accepted)))
+		quar := qp.stage(tx)
+		if quar == "flag" {
+			// what the pipeline's check runner does when the body arrives, after
+			// every recipient went through AddRcpt
+			meta.Quarantine = true
+		}
 
 		pd, isPartial := d.(module.PartialDelivery)
 		if !isPartial {
@@ -389,6 +411,7 @@ func runRemote(t *testing.T, r *rep.Reporter, c *rep.Case, idx int) {
 			"group": "remote", "transaction": tx, "of": nTx, "supplied": lt.Supplied, "accepted": lt.Accepted,
 			"addrcpt_errors": rcptErr, "smtputf8_requested": meta.SMTPOpts.UTF8, "body_open_fails": openFail,
 			"setstatus_calls": calls, "earlier_transactions": hist, "mid_data_fault": mid,
+			"behind_pipeline": qp.ViaPipeline, "quarantine_raised_between_rcpt_and_data_by": quar, "quarantine_flag_after_body": meta.Quarantine,
 		}
 		hw := map[string]any{}
 		for sp, f := range facts {
@@ -434,6 +457,36 @@ func runRemote(t *testing.T, r *rep.Reporter, c *rep.Case, idx int) {
 			r.Count("remote_transactions_judged", 1)
 			if openFail {
 				r.Count("remote_body_open_failures", 1)
+			}
+			if qp.ViaPipeline {
+				r.Count("remote_transactions_judged_behind_pipeline", 1)
+			}
+			if quar != "" && meta.Quarantine && calls != nil {
+				// the flag was up when BodyNonAtomic ran (a fact of the metadata, not of the plan)
+				hopRefused := false
+				for _, f := range facts {
+					for _, rec := range f.recs {
+						if len(rec.AcceptedRcpts()) < len(rec.Rcpts) {
+							hopRefused = true
+						}
+					}
+				}
+				mixed := hopRefused && len(lt.Accepted) > 0
+				if quar == "flag" {
+					r.Count("remote_transactions_quarantined_between_rcpt_and_data", 1)
+					if mixed {
+						r.Count("remote_quarantined_with_rcpt_refused_by_hop_and_another_accepted", 1)
+					}
+				} else {
+					r.Count("remote_transactions_quarantined_by_pipeline_check", 1)
+					r.Distinct("fault_stages", "remote:quarantine-by-check-at-"+quar)
+					if mixed {
+						r.Count("remote_quarantined_by_pipeline_check_with_rcpt_refused_by_hop_and_another_accepted", 1)
+					}
+				}
+				if len(lt.Accepted) < len(lt.Supplied) && len(lt.Accepted) > 0 {
+					r.Count("remote_quarantined_with_some_rcpt_not_accepted_and_another_accepted", 1)
+				}
 			}
 			countMid(r, "remote", mid, gb, openFail, func() (reached, failedAfter int) {
 				for i, a := range lt.Accepted {
@@ -509,7 +562,7 @@ func runRemote(t *testing.T, r *rep.Reporter, c *rep.Case, idx int) {
 			}
 		}
 		sort.Strings(cls)
-		shape = append(shape, fmt.Sprintf("[%s|%s|open=%v|mid=%s]", strings.Join(cls, ","), strings.Join(sortedKeys(stages), ","), openFail, mid.kind()))
+		shape = append(shape, fmt.Sprintf("[%s|%s|open=%v|mid=%s|quar=%s]", strings.Join(cls, ","), strings.Join(sortedKeys(stages), ","), openFail, mid.kind(), quar))
 		for s := range stages {
 			r.Distinct("fault_stages", "remote:"+s)
 		}
